@@ -198,6 +198,11 @@ def run(chk):
                 if st["outcome"] == "panic":
                     chk.violation(outcome_signature(st), f"{key}: panic in {case['steps'][j]['sql'][:200]}: {st.get('panic_msg')}", {"cases": [case]})
                     break
+                if rst["outcome"] in ("skipped", "panic", "deadlock", "diverged", "timeout"):
+                    # the reference configuration did not produce this statement's result (its session ended earlier on a
+                    # recorded or reported defect): nothing to compare with
+                    chk.inconc("reference configuration did not run the statement")
+                    break
                 if st["outcome"] != rst["outcome"]:
                     if "error" in (st["outcome"], rst["outcome"]):
                         e = (st.get("error") or rst.get("error") or "").split("\n")[0]
